@@ -40,6 +40,21 @@ Part E (real input,    same path up to group_by_power with a pin-temperature
                        pin-average polynomial (end points + stationary point),
                        with a 1e-6 relative margin below which two parameters
                        count as tied.
+Part F (two requests)  the real run_dassh_orifice (with _setup_input_orifice,
+                       dassh.__main__.run_dassh, _get_dassh_results) resp. the
+                       whole real optimize() is run for request 1 (2 groups,
+                       773.15 K) and then for a different request 2 (other
+                       group count and / or outlet target, hence other flows)
+                       in ONE working directory x recycle_results {False,
+                       True} x what request 1 left behind (_iter1 with
+                       reactor + data.csv, reactor only, data.csv only, only
+                       another iteration's directory).  Differential twin:
+                       request 2 in a pristine directory.  recycle off: the
+                       returned table, the stored data.csv and the saved
+                       reactor (flow, pressure drop, outlet temperature) must
+                       equal the twin's row by row (1e-9 relative); recycle
+                       on: the documented reuse must return what the
+                       directory held and must not crash.
 
 Previous results in parts B and C cover one and two time steps (row blocks
 as _get_dassh_results stacks them); the required total stays Q/(cp dT) of the
@@ -1056,6 +1071,217 @@ def run_linear(c):
 
 
 # ----------------------------------------------------------------------
+# Part F: two requests in ONE working directory (stale iteration results).
+# The real run_dassh_orifice (-> _find_precalculated_power_dist,
+# _setup_input_orifice, _setup_input_perfect, dassh.__main__.run_dassh,
+# _get_dassh_results, _read_dassh_results) resp. the whole real optimize() is
+# driven for request 1 and then for a different request 2; the differential
+# twin is the same request 2 in a pristine directory.
+F_LEN = 0.2
+F_POWERS = {'A': [30.0e3, 29.0e3, 28.0e3, 24.0e3, 23.5e3, 19.0e3, 18.5e3],
+            'B': [30.0e3, 29.0e3, 20.0e3, 19.5e3, 19.0e3, 10.0e3, 10.0e3]}
+F_REQ1 = (2, 773.15)
+F_REQ2 = ((3, 773.15), (2, 723.15), (3, 723.15))
+F_TOL = 1e-9     # relative; the twin repeats the identical arithmetic (single BLAS thread,
+                 # same input text), so only formatting round trips could differ
+
+
+def cases_f(tier):
+    out = []
+    for pk in (('A', 'B') if tier == 'thorough' else ('A',)):
+        for (k2, t2) in F_REQ2:
+            for rec in (False, True):
+                for pre in ('full', 'pkl-only', 'csv-only', 'other-iter'):
+                    out.append({'family': 'direct', 'powers': pk, 'n_groups': k2, 't_bulk': t2,
+                                'recycle': rec, 'prestate': pre, 'n': 7})
+    for pk in (('A', 'B') if tier == 'thorough' else ('A',)):
+        for (k2, t2) in (F_REQ2 if tier == 'thorough' else F_REQ2[-1:]):
+            for rec in (False, True):
+                out.append({'family': 'optimize', 'powers': pk, 'n_groups': k2, 't_bulk': t2,
+                            'recycle': rec, 'prestate': 'full', 'n': 7})
+    return out
+
+
+def _f_scn(S, pw, k, t_bulk, recycle):
+    dsn = S.design(2)
+    npin = S.n_pins(2)
+    return {'setup': {'log_progress': 0, 'calc_energy_balance': False},
+            'core': {'inlet': T_IN, 'length': F_LEN, 'coolant': COOLANT, 'gap_model': 'no_flow',
+                     'pitch': round(max(dsn['duct_ftf']) + 0.004, 9)},
+            'types': {'fuel': dsn},
+            'assign': [['fuel', rg, ps, {'flowrate': 1.0}] for (rg, ps) in S.core_positions(2)],
+            'power': {'asm': {str(i + 1): {'cells': [0.0, F_LEN],
+                                           'pins': [[[pw[i] / npin / F_LEN] for _ in range(npin)]]}
+                              for i in range(len(pw))}},
+            'orificing': {'assemblies_to_group': ['fuel'], 'n_groups': k,
+                          'value_to_optimize': 'peak coolant temp', 'bulk_coolant_temp': t_bulk,
+                          'iteration_limit': 3, 'convergence_tol': 0.002,
+                          'recycle_results': bool(recycle)}}
+
+
+def _f_flows(o, pw, t_bulk, cp):
+    """flows of a request: proportional to the mean power of the (real) group"""
+    g = [int(x) for x in o.group_data[:, 2]]
+    m_total = sum(pw) / (cp * (t_bulk - T_IN))
+    gm = [sum(pw[i] for i in range(len(pw)) if g[i] == gi) / g.count(gi) for gi in g]
+    return np.array([m_total * x / sum(gm) for x in gm])
+
+
+def _f_pkl(path):
+    import dassh
+    import os
+    pth = os.path.join(path, 'dassh_reactor.pkl')
+    if not os.path.exists(pth):
+        return None
+    rx = dassh.reactor.load(pth)
+    return [[float(a.flow_rate), float(a.pressure_drop), float(a.avg_coolant_temp)]
+            for a in rx.assemblies]
+
+
+def _f_differs(a, b):
+    a, b = np.asarray(a, dtype=float), np.asarray(b, dtype=float)
+    if a.shape != b.shape:
+        return 'shape %s vs %s' % (a.shape, b.shape)
+    d = np.abs(a - b) / np.maximum(1.0, np.abs(b))
+    if not np.all(np.isfinite(a)) or float(np.max(d)) > F_TOL:
+        i = np.unravel_index(int(np.argmax(d)), d.shape)
+        return 'entry %s: %.9g vs %.9g' % (tuple(int(x) for x in i), a[i], b[i])
+    return None
+
+
+def _f_result_csv(path):
+    rows = []
+    with open(path) as f:
+        for line in f.read().splitlines():
+            ll = line.split(',')
+            rows.append([float(ll[j]) for j in (0, 2, 3, 4, 5, 8, 9, 10)])
+    return np.array(rows)
+
+
+def run_twice(c):
+    import contextlib
+    import io
+    import os
+    import dassh
+    import dassh.__main__  # noqa: F401  (Orificing calls dassh.__main__.run_dassh)
+    from .. import scenario as S
+    r = new_result()
+    V = r['violations']
+    pw = F_POWERS[c['powers']]
+    cp = _cp()
+    k1, t1 = F_REQ1
+    k2, t2 = c['n_groups'], c['t_bulk']
+    rec = c['recycle']
+    site = 'orificing.py:run_dassh_orifice'
+    r['traces'] = 1
+    r['nontrivial'] = True
+    quiet = contextlib.redirect_stdout(io.StringIO())
+
+    def request(b, k, t):
+        """(re)write the input of a request into the directory, build the optimiser"""
+        text = S.input_text(_f_scn(S, pw, k, t, rec), ['power_0.csv'])
+        with open(b.path, 'w') as f:
+            f.write(text)
+        return dassh.Orificing(dassh.DASSH_Input(b.path))
+
+    try:
+        with quiet, S.Built(_f_scn(S, pw, k1, t1, rec)) as b, \
+                S.Built(_f_scn(S, pw, k2, t2, rec)) as twin:
+            if c['family'] == 'direct':
+                it1 = 2 if c['prestate'] == 'other-iter' else 1
+                o1 = request(b, k1, t1)
+                o1.group_by_power()
+                f1 = _f_flows(o1, pw, t1, cp)
+                r1 = o1.run_dassh_orifice(it1, f1)
+                r['states'] += 1
+                r['transitions'] += 1
+                d1 = os.path.join(b.dir, '_iter%d' % it1)
+                if c['prestate'] == 'pkl-only':
+                    os.remove(os.path.join(d1, 'data.csv'))
+                elif c['prestate'] == 'csv-only':
+                    os.remove(os.path.join(d1, 'dassh_reactor.pkl'))
+                o2 = request(b, k2, t2)
+                o2.group_by_power()
+                f2 = _f_flows(o2, pw, t2, cp)
+                r2 = o2.run_dassh_orifice(1, f2)
+                r['states'] += 1
+                r['transitions'] += 1
+                ot = request(twin, k2, t2)
+                ot.group_by_power()
+                ft = _f_flows(ot, pw, t2, cp)
+                rt = ot.run_dassh_orifice(1, ft)
+                r['states'] += 1
+                r['transitions'] += 1
+                d2 = os.path.join(b.dir, '_iter1')
+                stored = np.loadtxt(os.path.join(d2, 'data.csv'), delimiter=',')
+                fresh = (not rec) or c['prestate'] == 'other-iter'
+                if fresh:
+                    # nothing may be reused: table, stored table and the saved
+                    # reactor are those of a DASSH run with the flows of request 2
+                    why = _f_differs(r2, rt)
+                    if why is None and _f_differs(np.asarray(r2)[:, 3], f2) is not None:
+                        why = 'flow column is not the requested flow vector'
+                    if why is None:
+                        why = _f_differs(stored, rt) and 'stored data.csv: ' + _f_differs(stored, rt)
+                    if why is None:
+                        pa, pb = _f_pkl(d2), _f_pkl(os.path.join(twin.dir, '_iter1'))
+                        why = (_f_differs(pa, pb) and 'saved reactor (flow, pressure drop, outlet '
+                               'temperature): ' + _f_differs(pa, pb)) if pa and pb else \
+                            'no reactor saved'
+                    if why:
+                        V.append(violation('stale-results', c, 'results of iteration 1 for request 2 '
+                                           '(%d groups, %.2f K) are not those of a DASSH run with its '
+                                           'flows: %s; flows reported %s, requested %s'
+                                           % (k2, t2, why, np.round(np.asarray(r2)[:, 3], 5).tolist(),
+                                              np.round(f2, 5).tolist()), None, None, F_TOL,
+                                           site=site))
+                    r['outcome'] = 'stale-results' if V else 'fresh'
+                else:
+                    # documented reuse: what is returned is what the directory held
+                    why = _f_differs(r2, r1)
+                    if why:
+                        V.append(violation('reuse-mismatch', c, 'recycled results differ from what the '
+                                           'directory held: ' + why, None, None, F_TOL, site=site))
+                    r['outcome'] = 'reuse-mismatch' if V else 'reused'
+            else:
+                o1 = request(b, k1, t1)
+                o1.optimize()
+                r['states'] += 1
+                o2 = request(b, k2, t2)
+                o2.optimize()
+                r['states'] += 1
+                ot = request(twin, k2, t2)
+                ot.optimize()
+                r['states'] += 1
+                r['transitions'] += 3
+                if rec:
+                    r['outcome'] = 'reused'      # only: it ran to completion
+                else:
+                    why = _f_differs(_f_result_csv(os.path.join(b.dir, 'orificing_result_assembly.csv')),
+                                     _f_result_csv(os.path.join(twin.dir,
+                                                                'orificing_result_assembly.csv')))
+                    if why:
+                        why = 'orificing_result_assembly.csv ' + why
+                    it = 1
+                    while why is None and os.path.exists(os.path.join(twin.dir, '_iter%d' % it, 'data.csv')):
+                        pa = os.path.join(b.dir, '_iter%d' % it, 'data.csv')
+                        pb = os.path.join(twin.dir, '_iter%d' % it, 'data.csv')
+                        d = _f_differs(np.loadtxt(pa, delimiter=','), np.loadtxt(pb, delimiter=','))
+                        if d:
+                            why = '_iter%d/data.csv %s' % (it, d)
+                        it += 1
+                    if why:
+                        V.append(violation('stale-results', c, 'second optimisation in the same '
+                                           'directory (%d groups, %.2f K, recycle_results = False) does '
+                                           'not report what a pristine directory gives: %s'
+                                           % (k2, t2, why), None, None, F_TOL, site=site))
+                    r['outcome'] = 'stale-results' if V else 'fresh'
+    except SystemExit:
+        r['outcome'] = 'exit'
+    return r
+
+
+# ----------------------------------------------------------------------
 def main(run):
     run.rule = ('A: every multiset (size 1..6 quick / 1..7 thorough, repetition allowed) over the '
                 'values {1,1.02,1.1,1.5,2,4} x requested groups 1..N x (cutoff,delta) pairs; '
@@ -1072,7 +1298,10 @@ def main(run):
                 'distinct input. '
                 'E: real input with a pin-temperature optimisation variable: amplitude pair x axial '
                 'shape of the hot assemblies x different shape of the others x requested groups x '
-                'option name (x layout, axial cells in thorough); each is a distinct input.')
+                'option name (x layout, axial cells in thorough); each is a distinct input. '
+                'F: histories [request 1, request 2] in one directory: power vector x request 2 x '
+                'recycle flag x state left by request 1, direct run_dassh_orifice calls and whole '
+                'optimize() runs; each is a distinct history.')
     run.assumptions = [
         'dassh.Material(sodium_se2anl_425).heat_capacity (constant) is the cp of Q/(cp dT)',
         'the parametric sweep table and the sweep that yields previous results are synthetic '
@@ -1157,6 +1386,17 @@ def main(run):
             'vacuous-alphabet', {'part': 'real-linear'},
             'no grouping in which a bottom-peaked assembly outranks a flatter one only through its '
             'interior maximum', [n_sens, split], None), part='real-linear'))
+    cf = cases_f(run.tier)
+    rf = run.explore('two-requests', cf, run_twice, budget_s=300, chunksize=1)
+    run.notes['two_request_cases'] = len(cf)
+    out_f = {}
+    for r in rf:
+        out_f[r['outcome']] = out_f.get(r['outcome'], 0) + 1
+    if not out_f.get('fresh') or not out_f.get('reused'):
+        run.violations.append(dict(violation(
+            'vacuous-alphabet', {'part': 'two-requests'},
+            'two-request histories did not reach both a fresh rerun and a documented reuse',
+            out_f, None), part='two-requests'))
 
 
 def replay(body):
@@ -1166,7 +1406,7 @@ def replay(body):
               'check, rerun the tier to re-evaluate)' % (body.get('what'), body.get('observed')))
         return 1
     fn = {'grouping': run_group, 'distribution': run_distribute, 'histories': run_history,
-          'real-input': run_real, 'real-linear': run_linear}.get(part)
+          'real-input': run_real, 'real-linear': run_linear, 'two-requests': run_twice}.get(part)
     if fn is None:
         print('no replay for part', part)
         return 1
